@@ -50,7 +50,10 @@ ASSUMPTIONS = [
     "the 'fresh' reference is the same library on a cache stripped of trees and binning files",
 ]
 PROBES = ["rebuild_same_nbins", "closed_side_switch", "binned_to_unbinned", "unbinned_to_binned", "forced_rebuild", "measure_after_foreign_build", "reopen", "op_under_parallel_schedule", "second_handle_used", "identities_recycled"]
-REAL_VS_STUB = dict(real="all of yaw (sequential), pickle, tmpfs", stub="none (Hypothesis generates the history)")
+REAL_VS_STUB = dict(
+    real="all of yaw, pickle, tmpfs; references and the on-disk invariant run in real, pristine processes (children of a zygote forked before the session)",
+    stub="multiprocessing (sim.fakemp) and per-process memo caches (sim.procstate) for ops with workers > 1; builtins.id (sim.identity)",
+)
 
 # binning pool built to collide
 POOL = [
